@@ -42,11 +42,15 @@ FIELDS = [
 ]
 
 
-def fields_for(dim):
+def fields_for(dim, few=False):
+    """the fields of the family for a grid of dimension dim (few: the quick tier's subset - a translation, a
+    rotation, uniaxial / general strains)"""
     if dim == 3:
-        return [f for f in FIELDS]
-    return [f for f in FIELDS if all(f["G"][2][k] == 0 and f["G"][k][2] == 0 for k in range(3)) and f["u0"][2] == 0] + \
-           [dict(G=[[0, 0, 0], [0, 0, 0], [0, 0, 0]], u0=[3, 1, 0])]
+        fl = list(FIELDS)
+        return [fl[i] for i in (1, 2, 7, 8, 9, 10)] if few else fl
+    fl = [f for f in FIELDS if all(f["G"][2][k] == 0 and f["G"][k][2] == 0 for k in range(3)) and f["u0"][2] == 0] + \
+         [dict(G=[[0, 0, 0], [0, 0, 0], [0, 0, 0]], u0=[3, 1, 0])]
+    return [fl[i] for i in (0, 1, 2, 4, 5)] if few else fl
 
 
 # ---------------------------------------------------------------------------------------------------
